@@ -34,7 +34,9 @@ block into a term of a monad M (default `Except`), so that a call which raises e
   effect loops         with `monad["effects"]` a loop whose body only runs statements for their effect (no variable of
                        the scope is rebound) is translated with the unit state `()`.
   nested def           `def inner(a, b): …` -> `let inner0 : <closures[inner]> := fun a0 b0 => <body>` (a closure over
-                       the variables in scope; its body is a block of its own); `inner(x, y)` -> `(inner0 x y)`.
+                       the variables in scope; its body is a block of its own); `inner(x, y)` -> `(inner0 x y)`, or, when
+                       the body is one `return <expr>`, that expression with the arguments in place of the parameters
+                       (inlined at the call site: closure call <-> the call it wraps).
   try / except         `try: BODY except E: HANDLER` where BODY and HANDLER end in `return` / `raise` on every path
                        (no `else`, no `finally`, no `as`): `tryExcept (BODY) (catch[E]) (HANDLER)` (`monad["tryexc"]`).
   reduce               `reduce(lambda acc, it: E, xs, init)` -> `reduceE (fun acc0 it0 => E) xs init`, monadic.
@@ -108,6 +110,18 @@ class Translator2X(Translator2):
             return "(%s).%s" % (x, "isSome" if isinstance(node.ops[0], ast.IsNot) else "isNone"), ""
         if (isinstance(node, ast.Call) and isinstance(node.func, ast.Name) and not node.keywords
                 and scope.get("\0closure:" + node.func.id)):
+            d = scope.get("\0closuredef:" + node.func.id)
+            body = [b for b in (d.body if d is not None else [])
+                    if not (isinstance(b, ast.Expr) and isinstance(b.value, ast.Constant) and isinstance(b.value.value, str))]
+            if (d is not None and len(body) == 1 and isinstance(body[0], ast.Return) and body[0].value is not None
+                    and len(d.args.args) == len(node.args) and not any(isinstance(a, ast.Starred) for a in node.args)):
+                # a CALL of a one-expression closure is its body with the arguments in place of the parameters (the
+                # free variables are those of the call site: Python binds them late).  This is what makes
+                # `return transform(x)` and `return self.f(x, k)` (the body of `transform`) one and the same term.
+                sc = dict(scope)
+                for p_, a in zip(d.args.args, node.args):
+                    sc[p_.arg] = self.pure(a, scope)
+                return self.expr(body[0].value, sc)
             args = " ".join(self.pure(a, scope) for a in node.args)
             return "(%s %s)" % (scope[node.func.id], args), ("bind" if self.r.monad is not None else "")
         if (isinstance(node, ast.Call) and isinstance(node.func, ast.Name) and node.func.id == "reduce"
@@ -390,6 +404,7 @@ class Translator2X(Translator2):
         after = dict(scope)
         after[st.name] = name
         after["\0closure:" + st.name] = name
+        after["\0closuredef:" + st.name] = st
         head = "%slet %s%s := fun %s =>\n%s\n" % (pad, name, " : " + ty if ty else "", " ".join(params) or "_", body)
         return head + self.block(rest, after, ind, ctx)
 
